@@ -73,7 +73,7 @@ Next == /\ Len(cs) < MaxLen /\ Len(cs) >= ShardLen
         /\ UNCHANGED v
 Spec == Init /\ [][Next]_vars
 
-Exported == Export => PrintT("SRC " \o ToJson(Judge(Bytes(cs, v))))
+Exported == Export => PrintT("SRC " \o ToJson(Judge(Bytes(cs, v)) @@ [v |-> v]))
 
 Text == Chars(Bytes(cs, v))
 NulOnly    == (\A i \in 1..Len(Text) : Text[i] # NUL) => CertAsRead(Text) = Cert(Text)
